@@ -18,17 +18,17 @@ EXTENDS Align, TLAPS
 
 
 THEOREM Up_0 == \A v \in Nat : IsAlignUp(1, v, AlignUp(1, v))
-  BY Z3 DEF IsAlignUp, AlignUp
+  BY Z3T(60) DEF IsAlignUp, AlignUp
 THEOREM UpLeast_0 == \A v \in Nat, x \in Nat : (x % 1 = 0 /\ x >= v) => x >= AlignUp(1, v)
-  BY Z3 DEF AlignUp
+  BY Z3T(60) DEF AlignUp
 THEOREM Down_0 == \A v \in Nat : IsAlignDown(1, v, AlignDown(1, v))
-  BY Z3 DEF IsAlignDown, AlignDown
+  BY Z3T(60) DEF IsAlignDown, AlignDown
 THEOREM DownGreatest_0 == \A v \in Nat, x \in Nat : (x % 1 = 0 /\ x <= v) => x <= AlignDown(1, v)
-  BY Z3 DEF AlignDown
+  BY Z3T(60) DEF AlignDown
 LEMMA UpNat_0 == \A v \in Nat : AlignUp(1, v) \in Nat /\ AlignUp(1, v) % 1 = 0
-  BY Z3 DEF AlignUp
+  BY Z3T(60) DEF AlignUp
 LEMMA ModClosed_0 == \A v \in Nat, r \in Nat : AlignModulo(1, r, v) = AlignUp(1, v) + (r % 1)
-  BY UpNat_0, Z3T(30) DEF AlignModulo
+  BY UpNat_0, Z3T(60) DEF AlignModulo
 THEOREM Mod_0 == \A v \in Nat, r \in Nat : IsAlignModulo(1, r, v, AlignModulo(1, r, v))
 <1> TAKE v \in Nat, r \in Nat
 <1>1. AlignUp(1, v) \in Nat /\ AlignUp(1, v) % 1 = 0
@@ -36,27 +36,27 @@ THEOREM Mod_0 == \A v \in Nat, r \in Nat : IsAlignModulo(1, r, v, AlignModulo(1,
 <1>2. AlignModulo(1, r, v) = AlignUp(1, v) + (r % 1)
   BY ModClosed_0
 <1>3. r % 1 \in 0..0
-  BY Z3
+  BY Z3T(60)
 <1>4. (AlignUp(1, v) + (r % 1)) % 1 = r % 1
-  BY <1>1, <1>3, Z3T(30)
+  BY <1>1, <1>3, Z3T(60)
 <1> QED
-  BY <1>1, <1>2, <1>3, <1>4, Z3T(30) DEF IsAlignModulo
+  BY <1>1, <1>2, <1>3, <1>4, Z3T(60) DEF IsAlignModulo
 THEOREM ModLeast_0 == \A v \in Nat, r \in Nat, x \in Nat :
     (x >= AlignUp(1, v) /\ x % 1 = r % 1) => x >= AlignModulo(1, r, v)
-  BY UpNat_0, ModClosed_0, Z3T(30)
+  BY UpNat_0, ModClosed_0, Z3T(60)
 
 THEOREM Up_1 == \A v \in Nat : IsAlignUp(2, v, AlignUp(2, v))
-  BY Z3 DEF IsAlignUp, AlignUp
+  BY Z3T(60) DEF IsAlignUp, AlignUp
 THEOREM UpLeast_1 == \A v \in Nat, x \in Nat : (x % 2 = 0 /\ x >= v) => x >= AlignUp(2, v)
-  BY Z3 DEF AlignUp
+  BY Z3T(60) DEF AlignUp
 THEOREM Down_1 == \A v \in Nat : IsAlignDown(2, v, AlignDown(2, v))
-  BY Z3 DEF IsAlignDown, AlignDown
+  BY Z3T(60) DEF IsAlignDown, AlignDown
 THEOREM DownGreatest_1 == \A v \in Nat, x \in Nat : (x % 2 = 0 /\ x <= v) => x <= AlignDown(2, v)
-  BY Z3 DEF AlignDown
+  BY Z3T(60) DEF AlignDown
 LEMMA UpNat_1 == \A v \in Nat : AlignUp(2, v) \in Nat /\ AlignUp(2, v) % 2 = 0
-  BY Z3 DEF AlignUp
+  BY Z3T(60) DEF AlignUp
 LEMMA ModClosed_1 == \A v \in Nat, r \in Nat : AlignModulo(2, r, v) = AlignUp(2, v) + (r % 2)
-  BY UpNat_1, Z3T(30) DEF AlignModulo
+  BY UpNat_1, Z3T(60) DEF AlignModulo
 THEOREM Mod_1 == \A v \in Nat, r \in Nat : IsAlignModulo(2, r, v, AlignModulo(2, r, v))
 <1> TAKE v \in Nat, r \in Nat
 <1>1. AlignUp(2, v) \in Nat /\ AlignUp(2, v) % 2 = 0
@@ -64,27 +64,27 @@ THEOREM Mod_1 == \A v \in Nat, r \in Nat : IsAlignModulo(2, r, v, AlignModulo(2,
 <1>2. AlignModulo(2, r, v) = AlignUp(2, v) + (r % 2)
   BY ModClosed_1
 <1>3. r % 2 \in 0..1
-  BY Z3
+  BY Z3T(60)
 <1>4. (AlignUp(2, v) + (r % 2)) % 2 = r % 2
-  BY <1>1, <1>3, Z3T(30)
+  BY <1>1, <1>3, Z3T(60)
 <1> QED
-  BY <1>1, <1>2, <1>3, <1>4, Z3T(30) DEF IsAlignModulo
+  BY <1>1, <1>2, <1>3, <1>4, Z3T(60) DEF IsAlignModulo
 THEOREM ModLeast_1 == \A v \in Nat, r \in Nat, x \in Nat :
     (x >= AlignUp(2, v) /\ x % 2 = r % 2) => x >= AlignModulo(2, r, v)
-  BY UpNat_1, ModClosed_1, Z3T(30)
+  BY UpNat_1, ModClosed_1, Z3T(60)
 
 THEOREM Up_2 == \A v \in Nat : IsAlignUp(4, v, AlignUp(4, v))
-  BY Z3 DEF IsAlignUp, AlignUp
+  BY Z3T(60) DEF IsAlignUp, AlignUp
 THEOREM UpLeast_2 == \A v \in Nat, x \in Nat : (x % 4 = 0 /\ x >= v) => x >= AlignUp(4, v)
-  BY Z3 DEF AlignUp
+  BY Z3T(60) DEF AlignUp
 THEOREM Down_2 == \A v \in Nat : IsAlignDown(4, v, AlignDown(4, v))
-  BY Z3 DEF IsAlignDown, AlignDown
+  BY Z3T(60) DEF IsAlignDown, AlignDown
 THEOREM DownGreatest_2 == \A v \in Nat, x \in Nat : (x % 4 = 0 /\ x <= v) => x <= AlignDown(4, v)
-  BY Z3 DEF AlignDown
+  BY Z3T(60) DEF AlignDown
 LEMMA UpNat_2 == \A v \in Nat : AlignUp(4, v) \in Nat /\ AlignUp(4, v) % 4 = 0
-  BY Z3 DEF AlignUp
+  BY Z3T(60) DEF AlignUp
 LEMMA ModClosed_2 == \A v \in Nat, r \in Nat : AlignModulo(4, r, v) = AlignUp(4, v) + (r % 4)
-  BY UpNat_2, Z3T(30) DEF AlignModulo
+  BY UpNat_2, Z3T(60) DEF AlignModulo
 THEOREM Mod_2 == \A v \in Nat, r \in Nat : IsAlignModulo(4, r, v, AlignModulo(4, r, v))
 <1> TAKE v \in Nat, r \in Nat
 <1>1. AlignUp(4, v) \in Nat /\ AlignUp(4, v) % 4 = 0
@@ -92,27 +92,27 @@ THEOREM Mod_2 == \A v \in Nat, r \in Nat : IsAlignModulo(4, r, v, AlignModulo(4,
 <1>2. AlignModulo(4, r, v) = AlignUp(4, v) + (r % 4)
   BY ModClosed_2
 <1>3. r % 4 \in 0..3
-  BY Z3
+  BY Z3T(60)
 <1>4. (AlignUp(4, v) + (r % 4)) % 4 = r % 4
-  BY <1>1, <1>3, Z3T(30)
+  BY <1>1, <1>3, Z3T(60)
 <1> QED
-  BY <1>1, <1>2, <1>3, <1>4, Z3T(30) DEF IsAlignModulo
+  BY <1>1, <1>2, <1>3, <1>4, Z3T(60) DEF IsAlignModulo
 THEOREM ModLeast_2 == \A v \in Nat, r \in Nat, x \in Nat :
     (x >= AlignUp(4, v) /\ x % 4 = r % 4) => x >= AlignModulo(4, r, v)
-  BY UpNat_2, ModClosed_2, Z3T(30)
+  BY UpNat_2, ModClosed_2, Z3T(60)
 
 THEOREM Up_3 == \A v \in Nat : IsAlignUp(8, v, AlignUp(8, v))
-  BY Z3 DEF IsAlignUp, AlignUp
+  BY Z3T(60) DEF IsAlignUp, AlignUp
 THEOREM UpLeast_3 == \A v \in Nat, x \in Nat : (x % 8 = 0 /\ x >= v) => x >= AlignUp(8, v)
-  BY Z3 DEF AlignUp
+  BY Z3T(60) DEF AlignUp
 THEOREM Down_3 == \A v \in Nat : IsAlignDown(8, v, AlignDown(8, v))
-  BY Z3 DEF IsAlignDown, AlignDown
+  BY Z3T(60) DEF IsAlignDown, AlignDown
 THEOREM DownGreatest_3 == \A v \in Nat, x \in Nat : (x % 8 = 0 /\ x <= v) => x <= AlignDown(8, v)
-  BY Z3 DEF AlignDown
+  BY Z3T(60) DEF AlignDown
 LEMMA UpNat_3 == \A v \in Nat : AlignUp(8, v) \in Nat /\ AlignUp(8, v) % 8 = 0
-  BY Z3 DEF AlignUp
+  BY Z3T(60) DEF AlignUp
 LEMMA ModClosed_3 == \A v \in Nat, r \in Nat : AlignModulo(8, r, v) = AlignUp(8, v) + (r % 8)
-  BY UpNat_3, Z3T(30) DEF AlignModulo
+  BY UpNat_3, Z3T(60) DEF AlignModulo
 THEOREM Mod_3 == \A v \in Nat, r \in Nat : IsAlignModulo(8, r, v, AlignModulo(8, r, v))
 <1> TAKE v \in Nat, r \in Nat
 <1>1. AlignUp(8, v) \in Nat /\ AlignUp(8, v) % 8 = 0
@@ -120,27 +120,27 @@ THEOREM Mod_3 == \A v \in Nat, r \in Nat : IsAlignModulo(8, r, v, AlignModulo(8,
 <1>2. AlignModulo(8, r, v) = AlignUp(8, v) + (r % 8)
   BY ModClosed_3
 <1>3. r % 8 \in 0..7
-  BY Z3
+  BY Z3T(60)
 <1>4. (AlignUp(8, v) + (r % 8)) % 8 = r % 8
-  BY <1>1, <1>3, Z3T(30)
+  BY <1>1, <1>3, Z3T(60)
 <1> QED
-  BY <1>1, <1>2, <1>3, <1>4, Z3T(30) DEF IsAlignModulo
+  BY <1>1, <1>2, <1>3, <1>4, Z3T(60) DEF IsAlignModulo
 THEOREM ModLeast_3 == \A v \in Nat, r \in Nat, x \in Nat :
     (x >= AlignUp(8, v) /\ x % 8 = r % 8) => x >= AlignModulo(8, r, v)
-  BY UpNat_3, ModClosed_3, Z3T(30)
+  BY UpNat_3, ModClosed_3, Z3T(60)
 
 THEOREM Up_4 == \A v \in Nat : IsAlignUp(16, v, AlignUp(16, v))
-  BY Z3 DEF IsAlignUp, AlignUp
+  BY Z3T(60) DEF IsAlignUp, AlignUp
 THEOREM UpLeast_4 == \A v \in Nat, x \in Nat : (x % 16 = 0 /\ x >= v) => x >= AlignUp(16, v)
-  BY Z3 DEF AlignUp
+  BY Z3T(60) DEF AlignUp
 THEOREM Down_4 == \A v \in Nat : IsAlignDown(16, v, AlignDown(16, v))
-  BY Z3 DEF IsAlignDown, AlignDown
+  BY Z3T(60) DEF IsAlignDown, AlignDown
 THEOREM DownGreatest_4 == \A v \in Nat, x \in Nat : (x % 16 = 0 /\ x <= v) => x <= AlignDown(16, v)
-  BY Z3 DEF AlignDown
+  BY Z3T(60) DEF AlignDown
 LEMMA UpNat_4 == \A v \in Nat : AlignUp(16, v) \in Nat /\ AlignUp(16, v) % 16 = 0
-  BY Z3 DEF AlignUp
+  BY Z3T(60) DEF AlignUp
 LEMMA ModClosed_4 == \A v \in Nat, r \in Nat : AlignModulo(16, r, v) = AlignUp(16, v) + (r % 16)
-  BY UpNat_4, Z3T(30) DEF AlignModulo
+  BY UpNat_4, Z3T(60) DEF AlignModulo
 THEOREM Mod_4 == \A v \in Nat, r \in Nat : IsAlignModulo(16, r, v, AlignModulo(16, r, v))
 <1> TAKE v \in Nat, r \in Nat
 <1>1. AlignUp(16, v) \in Nat /\ AlignUp(16, v) % 16 = 0
@@ -148,27 +148,27 @@ THEOREM Mod_4 == \A v \in Nat, r \in Nat : IsAlignModulo(16, r, v, AlignModulo(1
 <1>2. AlignModulo(16, r, v) = AlignUp(16, v) + (r % 16)
   BY ModClosed_4
 <1>3. r % 16 \in 0..15
-  BY Z3
+  BY Z3T(60)
 <1>4. (AlignUp(16, v) + (r % 16)) % 16 = r % 16
-  BY <1>1, <1>3, Z3T(30)
+  BY <1>1, <1>3, Z3T(60)
 <1> QED
-  BY <1>1, <1>2, <1>3, <1>4, Z3T(30) DEF IsAlignModulo
+  BY <1>1, <1>2, <1>3, <1>4, Z3T(60) DEF IsAlignModulo
 THEOREM ModLeast_4 == \A v \in Nat, r \in Nat, x \in Nat :
     (x >= AlignUp(16, v) /\ x % 16 = r % 16) => x >= AlignModulo(16, r, v)
-  BY UpNat_4, ModClosed_4, Z3T(30)
+  BY UpNat_4, ModClosed_4, Z3T(60)
 
 THEOREM Up_5 == \A v \in Nat : IsAlignUp(32, v, AlignUp(32, v))
-  BY Z3 DEF IsAlignUp, AlignUp
+  BY Z3T(60) DEF IsAlignUp, AlignUp
 THEOREM UpLeast_5 == \A v \in Nat, x \in Nat : (x % 32 = 0 /\ x >= v) => x >= AlignUp(32, v)
-  BY Z3 DEF AlignUp
+  BY Z3T(60) DEF AlignUp
 THEOREM Down_5 == \A v \in Nat : IsAlignDown(32, v, AlignDown(32, v))
-  BY Z3 DEF IsAlignDown, AlignDown
+  BY Z3T(60) DEF IsAlignDown, AlignDown
 THEOREM DownGreatest_5 == \A v \in Nat, x \in Nat : (x % 32 = 0 /\ x <= v) => x <= AlignDown(32, v)
-  BY Z3 DEF AlignDown
+  BY Z3T(60) DEF AlignDown
 LEMMA UpNat_5 == \A v \in Nat : AlignUp(32, v) \in Nat /\ AlignUp(32, v) % 32 = 0
-  BY Z3 DEF AlignUp
+  BY Z3T(60) DEF AlignUp
 LEMMA ModClosed_5 == \A v \in Nat, r \in Nat : AlignModulo(32, r, v) = AlignUp(32, v) + (r % 32)
-  BY UpNat_5, Z3T(30) DEF AlignModulo
+  BY UpNat_5, Z3T(60) DEF AlignModulo
 THEOREM Mod_5 == \A v \in Nat, r \in Nat : IsAlignModulo(32, r, v, AlignModulo(32, r, v))
 <1> TAKE v \in Nat, r \in Nat
 <1>1. AlignUp(32, v) \in Nat /\ AlignUp(32, v) % 32 = 0
@@ -176,27 +176,27 @@ THEOREM Mod_5 == \A v \in Nat, r \in Nat : IsAlignModulo(32, r, v, AlignModulo(3
 <1>2. AlignModulo(32, r, v) = AlignUp(32, v) + (r % 32)
   BY ModClosed_5
 <1>3. r % 32 \in 0..31
-  BY Z3
+  BY Z3T(60)
 <1>4. (AlignUp(32, v) + (r % 32)) % 32 = r % 32
-  BY <1>1, <1>3, Z3T(30)
+  BY <1>1, <1>3, Z3T(60)
 <1> QED
-  BY <1>1, <1>2, <1>3, <1>4, Z3T(30) DEF IsAlignModulo
+  BY <1>1, <1>2, <1>3, <1>4, Z3T(60) DEF IsAlignModulo
 THEOREM ModLeast_5 == \A v \in Nat, r \in Nat, x \in Nat :
     (x >= AlignUp(32, v) /\ x % 32 = r % 32) => x >= AlignModulo(32, r, v)
-  BY UpNat_5, ModClosed_5, Z3T(30)
+  BY UpNat_5, ModClosed_5, Z3T(60)
 
 THEOREM Up_6 == \A v \in Nat : IsAlignUp(64, v, AlignUp(64, v))
-  BY Z3 DEF IsAlignUp, AlignUp
+  BY Z3T(60) DEF IsAlignUp, AlignUp
 THEOREM UpLeast_6 == \A v \in Nat, x \in Nat : (x % 64 = 0 /\ x >= v) => x >= AlignUp(64, v)
-  BY Z3 DEF AlignUp
+  BY Z3T(60) DEF AlignUp
 THEOREM Down_6 == \A v \in Nat : IsAlignDown(64, v, AlignDown(64, v))
-  BY Z3 DEF IsAlignDown, AlignDown
+  BY Z3T(60) DEF IsAlignDown, AlignDown
 THEOREM DownGreatest_6 == \A v \in Nat, x \in Nat : (x % 64 = 0 /\ x <= v) => x <= AlignDown(64, v)
-  BY Z3 DEF AlignDown
+  BY Z3T(60) DEF AlignDown
 LEMMA UpNat_6 == \A v \in Nat : AlignUp(64, v) \in Nat /\ AlignUp(64, v) % 64 = 0
-  BY Z3 DEF AlignUp
+  BY Z3T(60) DEF AlignUp
 LEMMA ModClosed_6 == \A v \in Nat, r \in Nat : AlignModulo(64, r, v) = AlignUp(64, v) + (r % 64)
-  BY UpNat_6, Z3T(30) DEF AlignModulo
+  BY UpNat_6, Z3T(60) DEF AlignModulo
 THEOREM Mod_6 == \A v \in Nat, r \in Nat : IsAlignModulo(64, r, v, AlignModulo(64, r, v))
 <1> TAKE v \in Nat, r \in Nat
 <1>1. AlignUp(64, v) \in Nat /\ AlignUp(64, v) % 64 = 0
@@ -204,27 +204,27 @@ THEOREM Mod_6 == \A v \in Nat, r \in Nat : IsAlignModulo(64, r, v, AlignModulo(6
 <1>2. AlignModulo(64, r, v) = AlignUp(64, v) + (r % 64)
   BY ModClosed_6
 <1>3. r % 64 \in 0..63
-  BY Z3
+  BY Z3T(60)
 <1>4. (AlignUp(64, v) + (r % 64)) % 64 = r % 64
-  BY <1>1, <1>3, Z3T(30)
+  BY <1>1, <1>3, Z3T(60)
 <1> QED
-  BY <1>1, <1>2, <1>3, <1>4, Z3T(30) DEF IsAlignModulo
+  BY <1>1, <1>2, <1>3, <1>4, Z3T(60) DEF IsAlignModulo
 THEOREM ModLeast_6 == \A v \in Nat, r \in Nat, x \in Nat :
     (x >= AlignUp(64, v) /\ x % 64 = r % 64) => x >= AlignModulo(64, r, v)
-  BY UpNat_6, ModClosed_6, Z3T(30)
+  BY UpNat_6, ModClosed_6, Z3T(60)
 
 THEOREM Up_7 == \A v \in Nat : IsAlignUp(128, v, AlignUp(128, v))
-  BY Z3 DEF IsAlignUp, AlignUp
+  BY Z3T(60) DEF IsAlignUp, AlignUp
 THEOREM UpLeast_7 == \A v \in Nat, x \in Nat : (x % 128 = 0 /\ x >= v) => x >= AlignUp(128, v)
-  BY Z3 DEF AlignUp
+  BY Z3T(60) DEF AlignUp
 THEOREM Down_7 == \A v \in Nat : IsAlignDown(128, v, AlignDown(128, v))
-  BY Z3 DEF IsAlignDown, AlignDown
+  BY Z3T(60) DEF IsAlignDown, AlignDown
 THEOREM DownGreatest_7 == \A v \in Nat, x \in Nat : (x % 128 = 0 /\ x <= v) => x <= AlignDown(128, v)
-  BY Z3 DEF AlignDown
+  BY Z3T(60) DEF AlignDown
 LEMMA UpNat_7 == \A v \in Nat : AlignUp(128, v) \in Nat /\ AlignUp(128, v) % 128 = 0
-  BY Z3 DEF AlignUp
+  BY Z3T(60) DEF AlignUp
 LEMMA ModClosed_7 == \A v \in Nat, r \in Nat : AlignModulo(128, r, v) = AlignUp(128, v) + (r % 128)
-  BY UpNat_7, Z3T(30) DEF AlignModulo
+  BY UpNat_7, Z3T(60) DEF AlignModulo
 THEOREM Mod_7 == \A v \in Nat, r \in Nat : IsAlignModulo(128, r, v, AlignModulo(128, r, v))
 <1> TAKE v \in Nat, r \in Nat
 <1>1. AlignUp(128, v) \in Nat /\ AlignUp(128, v) % 128 = 0
@@ -232,27 +232,27 @@ THEOREM Mod_7 == \A v \in Nat, r \in Nat : IsAlignModulo(128, r, v, AlignModulo(
 <1>2. AlignModulo(128, r, v) = AlignUp(128, v) + (r % 128)
   BY ModClosed_7
 <1>3. r % 128 \in 0..127
-  BY Z3
+  BY Z3T(60)
 <1>4. (AlignUp(128, v) + (r % 128)) % 128 = r % 128
-  BY <1>1, <1>3, Z3T(30)
+  BY <1>1, <1>3, Z3T(60)
 <1> QED
-  BY <1>1, <1>2, <1>3, <1>4, Z3T(30) DEF IsAlignModulo
+  BY <1>1, <1>2, <1>3, <1>4, Z3T(60) DEF IsAlignModulo
 THEOREM ModLeast_7 == \A v \in Nat, r \in Nat, x \in Nat :
     (x >= AlignUp(128, v) /\ x % 128 = r % 128) => x >= AlignModulo(128, r, v)
-  BY UpNat_7, ModClosed_7, Z3T(30)
+  BY UpNat_7, ModClosed_7, Z3T(60)
 
 THEOREM Up_8 == \A v \in Nat : IsAlignUp(256, v, AlignUp(256, v))
-  BY Z3 DEF IsAlignUp, AlignUp
+  BY Z3T(60) DEF IsAlignUp, AlignUp
 THEOREM UpLeast_8 == \A v \in Nat, x \in Nat : (x % 256 = 0 /\ x >= v) => x >= AlignUp(256, v)
-  BY Z3 DEF AlignUp
+  BY Z3T(60) DEF AlignUp
 THEOREM Down_8 == \A v \in Nat : IsAlignDown(256, v, AlignDown(256, v))
-  BY Z3 DEF IsAlignDown, AlignDown
+  BY Z3T(60) DEF IsAlignDown, AlignDown
 THEOREM DownGreatest_8 == \A v \in Nat, x \in Nat : (x % 256 = 0 /\ x <= v) => x <= AlignDown(256, v)
-  BY Z3 DEF AlignDown
+  BY Z3T(60) DEF AlignDown
 LEMMA UpNat_8 == \A v \in Nat : AlignUp(256, v) \in Nat /\ AlignUp(256, v) % 256 = 0
-  BY Z3 DEF AlignUp
+  BY Z3T(60) DEF AlignUp
 LEMMA ModClosed_8 == \A v \in Nat, r \in Nat : AlignModulo(256, r, v) = AlignUp(256, v) + (r % 256)
-  BY UpNat_8, Z3T(30) DEF AlignModulo
+  BY UpNat_8, Z3T(60) DEF AlignModulo
 THEOREM Mod_8 == \A v \in Nat, r \in Nat : IsAlignModulo(256, r, v, AlignModulo(256, r, v))
 <1> TAKE v \in Nat, r \in Nat
 <1>1. AlignUp(256, v) \in Nat /\ AlignUp(256, v) % 256 = 0
@@ -260,27 +260,27 @@ THEOREM Mod_8 == \A v \in Nat, r \in Nat : IsAlignModulo(256, r, v, AlignModulo(
 <1>2. AlignModulo(256, r, v) = AlignUp(256, v) + (r % 256)
   BY ModClosed_8
 <1>3. r % 256 \in 0..255
-  BY Z3
+  BY Z3T(60)
 <1>4. (AlignUp(256, v) + (r % 256)) % 256 = r % 256
-  BY <1>1, <1>3, Z3T(30)
+  BY <1>1, <1>3, Z3T(60)
 <1> QED
-  BY <1>1, <1>2, <1>3, <1>4, Z3T(30) DEF IsAlignModulo
+  BY <1>1, <1>2, <1>3, <1>4, Z3T(60) DEF IsAlignModulo
 THEOREM ModLeast_8 == \A v \in Nat, r \in Nat, x \in Nat :
     (x >= AlignUp(256, v) /\ x % 256 = r % 256) => x >= AlignModulo(256, r, v)
-  BY UpNat_8, ModClosed_8, Z3T(30)
+  BY UpNat_8, ModClosed_8, Z3T(60)
 
 THEOREM Up_9 == \A v \in Nat : IsAlignUp(512, v, AlignUp(512, v))
-  BY Z3 DEF IsAlignUp, AlignUp
+  BY Z3T(60) DEF IsAlignUp, AlignUp
 THEOREM UpLeast_9 == \A v \in Nat, x \in Nat : (x % 512 = 0 /\ x >= v) => x >= AlignUp(512, v)
-  BY Z3 DEF AlignUp
+  BY Z3T(60) DEF AlignUp
 THEOREM Down_9 == \A v \in Nat : IsAlignDown(512, v, AlignDown(512, v))
-  BY Z3 DEF IsAlignDown, AlignDown
+  BY Z3T(60) DEF IsAlignDown, AlignDown
 THEOREM DownGreatest_9 == \A v \in Nat, x \in Nat : (x % 512 = 0 /\ x <= v) => x <= AlignDown(512, v)
-  BY Z3 DEF AlignDown
+  BY Z3T(60) DEF AlignDown
 LEMMA UpNat_9 == \A v \in Nat : AlignUp(512, v) \in Nat /\ AlignUp(512, v) % 512 = 0
-  BY Z3 DEF AlignUp
+  BY Z3T(60) DEF AlignUp
 LEMMA ModClosed_9 == \A v \in Nat, r \in Nat : AlignModulo(512, r, v) = AlignUp(512, v) + (r % 512)
-  BY UpNat_9, Z3T(30) DEF AlignModulo
+  BY UpNat_9, Z3T(60) DEF AlignModulo
 THEOREM Mod_9 == \A v \in Nat, r \in Nat : IsAlignModulo(512, r, v, AlignModulo(512, r, v))
 <1> TAKE v \in Nat, r \in Nat
 <1>1. AlignUp(512, v) \in Nat /\ AlignUp(512, v) % 512 = 0
@@ -288,27 +288,27 @@ THEOREM Mod_9 == \A v \in Nat, r \in Nat : IsAlignModulo(512, r, v, AlignModulo(
 <1>2. AlignModulo(512, r, v) = AlignUp(512, v) + (r % 512)
   BY ModClosed_9
 <1>3. r % 512 \in 0..511
-  BY Z3
+  BY Z3T(60)
 <1>4. (AlignUp(512, v) + (r % 512)) % 512 = r % 512
-  BY <1>1, <1>3, Z3T(30)
+  BY <1>1, <1>3, Z3T(60)
 <1> QED
-  BY <1>1, <1>2, <1>3, <1>4, Z3T(30) DEF IsAlignModulo
+  BY <1>1, <1>2, <1>3, <1>4, Z3T(60) DEF IsAlignModulo
 THEOREM ModLeast_9 == \A v \in Nat, r \in Nat, x \in Nat :
     (x >= AlignUp(512, v) /\ x % 512 = r % 512) => x >= AlignModulo(512, r, v)
-  BY UpNat_9, ModClosed_9, Z3T(30)
+  BY UpNat_9, ModClosed_9, Z3T(60)
 
 THEOREM Up_10 == \A v \in Nat : IsAlignUp(1024, v, AlignUp(1024, v))
-  BY Z3 DEF IsAlignUp, AlignUp
+  BY Z3T(60) DEF IsAlignUp, AlignUp
 THEOREM UpLeast_10 == \A v \in Nat, x \in Nat : (x % 1024 = 0 /\ x >= v) => x >= AlignUp(1024, v)
-  BY Z3 DEF AlignUp
+  BY Z3T(60) DEF AlignUp
 THEOREM Down_10 == \A v \in Nat : IsAlignDown(1024, v, AlignDown(1024, v))
-  BY Z3 DEF IsAlignDown, AlignDown
+  BY Z3T(60) DEF IsAlignDown, AlignDown
 THEOREM DownGreatest_10 == \A v \in Nat, x \in Nat : (x % 1024 = 0 /\ x <= v) => x <= AlignDown(1024, v)
-  BY Z3 DEF AlignDown
+  BY Z3T(60) DEF AlignDown
 LEMMA UpNat_10 == \A v \in Nat : AlignUp(1024, v) \in Nat /\ AlignUp(1024, v) % 1024 = 0
-  BY Z3 DEF AlignUp
+  BY Z3T(60) DEF AlignUp
 LEMMA ModClosed_10 == \A v \in Nat, r \in Nat : AlignModulo(1024, r, v) = AlignUp(1024, v) + (r % 1024)
-  BY UpNat_10, Z3T(30) DEF AlignModulo
+  BY UpNat_10, Z3T(60) DEF AlignModulo
 THEOREM Mod_10 == \A v \in Nat, r \in Nat : IsAlignModulo(1024, r, v, AlignModulo(1024, r, v))
 <1> TAKE v \in Nat, r \in Nat
 <1>1. AlignUp(1024, v) \in Nat /\ AlignUp(1024, v) % 1024 = 0
@@ -316,27 +316,27 @@ THEOREM Mod_10 == \A v \in Nat, r \in Nat : IsAlignModulo(1024, r, v, AlignModul
 <1>2. AlignModulo(1024, r, v) = AlignUp(1024, v) + (r % 1024)
   BY ModClosed_10
 <1>3. r % 1024 \in 0..1023
-  BY Z3
+  BY Z3T(60)
 <1>4. (AlignUp(1024, v) + (r % 1024)) % 1024 = r % 1024
-  BY <1>1, <1>3, Z3T(30)
+  BY <1>1, <1>3, Z3T(60)
 <1> QED
-  BY <1>1, <1>2, <1>3, <1>4, Z3T(30) DEF IsAlignModulo
+  BY <1>1, <1>2, <1>3, <1>4, Z3T(60) DEF IsAlignModulo
 THEOREM ModLeast_10 == \A v \in Nat, r \in Nat, x \in Nat :
     (x >= AlignUp(1024, v) /\ x % 1024 = r % 1024) => x >= AlignModulo(1024, r, v)
-  BY UpNat_10, ModClosed_10, Z3T(30)
+  BY UpNat_10, ModClosed_10, Z3T(60)
 
 THEOREM Up_11 == \A v \in Nat : IsAlignUp(2048, v, AlignUp(2048, v))
-  BY Z3 DEF IsAlignUp, AlignUp
+  BY Z3T(60) DEF IsAlignUp, AlignUp
 THEOREM UpLeast_11 == \A v \in Nat, x \in Nat : (x % 2048 = 0 /\ x >= v) => x >= AlignUp(2048, v)
-  BY Z3 DEF AlignUp
+  BY Z3T(60) DEF AlignUp
 THEOREM Down_11 == \A v \in Nat : IsAlignDown(2048, v, AlignDown(2048, v))
-  BY Z3 DEF IsAlignDown, AlignDown
+  BY Z3T(60) DEF IsAlignDown, AlignDown
 THEOREM DownGreatest_11 == \A v \in Nat, x \in Nat : (x % 2048 = 0 /\ x <= v) => x <= AlignDown(2048, v)
-  BY Z3 DEF AlignDown
+  BY Z3T(60) DEF AlignDown
 LEMMA UpNat_11 == \A v \in Nat : AlignUp(2048, v) \in Nat /\ AlignUp(2048, v) % 2048 = 0
-  BY Z3 DEF AlignUp
+  BY Z3T(60) DEF AlignUp
 LEMMA ModClosed_11 == \A v \in Nat, r \in Nat : AlignModulo(2048, r, v) = AlignUp(2048, v) + (r % 2048)
-  BY UpNat_11, Z3T(30) DEF AlignModulo
+  BY UpNat_11, Z3T(60) DEF AlignModulo
 THEOREM Mod_11 == \A v \in Nat, r \in Nat : IsAlignModulo(2048, r, v, AlignModulo(2048, r, v))
 <1> TAKE v \in Nat, r \in Nat
 <1>1. AlignUp(2048, v) \in Nat /\ AlignUp(2048, v) % 2048 = 0
@@ -344,27 +344,27 @@ THEOREM Mod_11 == \A v \in Nat, r \in Nat : IsAlignModulo(2048, r, v, AlignModul
 <1>2. AlignModulo(2048, r, v) = AlignUp(2048, v) + (r % 2048)
   BY ModClosed_11
 <1>3. r % 2048 \in 0..2047
-  BY Z3
+  BY Z3T(60)
 <1>4. (AlignUp(2048, v) + (r % 2048)) % 2048 = r % 2048
-  BY <1>1, <1>3, Z3T(30)
+  BY <1>1, <1>3, Z3T(60)
 <1> QED
-  BY <1>1, <1>2, <1>3, <1>4, Z3T(30) DEF IsAlignModulo
+  BY <1>1, <1>2, <1>3, <1>4, Z3T(60) DEF IsAlignModulo
 THEOREM ModLeast_11 == \A v \in Nat, r \in Nat, x \in Nat :
     (x >= AlignUp(2048, v) /\ x % 2048 = r % 2048) => x >= AlignModulo(2048, r, v)
-  BY UpNat_11, ModClosed_11, Z3T(30)
+  BY UpNat_11, ModClosed_11, Z3T(60)
 
 THEOREM Up_12 == \A v \in Nat : IsAlignUp(4096, v, AlignUp(4096, v))
-  BY Z3 DEF IsAlignUp, AlignUp
+  BY Z3T(60) DEF IsAlignUp, AlignUp
 THEOREM UpLeast_12 == \A v \in Nat, x \in Nat : (x % 4096 = 0 /\ x >= v) => x >= AlignUp(4096, v)
-  BY Z3 DEF AlignUp
+  BY Z3T(60) DEF AlignUp
 THEOREM Down_12 == \A v \in Nat : IsAlignDown(4096, v, AlignDown(4096, v))
-  BY Z3 DEF IsAlignDown, AlignDown
+  BY Z3T(60) DEF IsAlignDown, AlignDown
 THEOREM DownGreatest_12 == \A v \in Nat, x \in Nat : (x % 4096 = 0 /\ x <= v) => x <= AlignDown(4096, v)
-  BY Z3 DEF AlignDown
+  BY Z3T(60) DEF AlignDown
 LEMMA UpNat_12 == \A v \in Nat : AlignUp(4096, v) \in Nat /\ AlignUp(4096, v) % 4096 = 0
-  BY Z3 DEF AlignUp
+  BY Z3T(60) DEF AlignUp
 LEMMA ModClosed_12 == \A v \in Nat, r \in Nat : AlignModulo(4096, r, v) = AlignUp(4096, v) + (r % 4096)
-  BY UpNat_12, Z3T(30) DEF AlignModulo
+  BY UpNat_12, Z3T(60) DEF AlignModulo
 THEOREM Mod_12 == \A v \in Nat, r \in Nat : IsAlignModulo(4096, r, v, AlignModulo(4096, r, v))
 <1> TAKE v \in Nat, r \in Nat
 <1>1. AlignUp(4096, v) \in Nat /\ AlignUp(4096, v) % 4096 = 0
@@ -372,27 +372,27 @@ THEOREM Mod_12 == \A v \in Nat, r \in Nat : IsAlignModulo(4096, r, v, AlignModul
 <1>2. AlignModulo(4096, r, v) = AlignUp(4096, v) + (r % 4096)
   BY ModClosed_12
 <1>3. r % 4096 \in 0..4095
-  BY Z3
+  BY Z3T(60)
 <1>4. (AlignUp(4096, v) + (r % 4096)) % 4096 = r % 4096
-  BY <1>1, <1>3, Z3T(30)
+  BY <1>1, <1>3, Z3T(60)
 <1> QED
-  BY <1>1, <1>2, <1>3, <1>4, Z3T(30) DEF IsAlignModulo
+  BY <1>1, <1>2, <1>3, <1>4, Z3T(60) DEF IsAlignModulo
 THEOREM ModLeast_12 == \A v \in Nat, r \in Nat, x \in Nat :
     (x >= AlignUp(4096, v) /\ x % 4096 = r % 4096) => x >= AlignModulo(4096, r, v)
-  BY UpNat_12, ModClosed_12, Z3T(30)
+  BY UpNat_12, ModClosed_12, Z3T(60)
 
 THEOREM Up_13 == \A v \in Nat : IsAlignUp(8192, v, AlignUp(8192, v))
-  BY Z3 DEF IsAlignUp, AlignUp
+  BY Z3T(60) DEF IsAlignUp, AlignUp
 THEOREM UpLeast_13 == \A v \in Nat, x \in Nat : (x % 8192 = 0 /\ x >= v) => x >= AlignUp(8192, v)
-  BY Z3 DEF AlignUp
+  BY Z3T(60) DEF AlignUp
 THEOREM Down_13 == \A v \in Nat : IsAlignDown(8192, v, AlignDown(8192, v))
-  BY Z3 DEF IsAlignDown, AlignDown
+  BY Z3T(60) DEF IsAlignDown, AlignDown
 THEOREM DownGreatest_13 == \A v \in Nat, x \in Nat : (x % 8192 = 0 /\ x <= v) => x <= AlignDown(8192, v)
-  BY Z3 DEF AlignDown
+  BY Z3T(60) DEF AlignDown
 LEMMA UpNat_13 == \A v \in Nat : AlignUp(8192, v) \in Nat /\ AlignUp(8192, v) % 8192 = 0
-  BY Z3 DEF AlignUp
+  BY Z3T(60) DEF AlignUp
 LEMMA ModClosed_13 == \A v \in Nat, r \in Nat : AlignModulo(8192, r, v) = AlignUp(8192, v) + (r % 8192)
-  BY UpNat_13, Z3T(30) DEF AlignModulo
+  BY UpNat_13, Z3T(60) DEF AlignModulo
 THEOREM Mod_13 == \A v \in Nat, r \in Nat : IsAlignModulo(8192, r, v, AlignModulo(8192, r, v))
 <1> TAKE v \in Nat, r \in Nat
 <1>1. AlignUp(8192, v) \in Nat /\ AlignUp(8192, v) % 8192 = 0
@@ -400,27 +400,27 @@ THEOREM Mod_13 == \A v \in Nat, r \in Nat : IsAlignModulo(8192, r, v, AlignModul
 <1>2. AlignModulo(8192, r, v) = AlignUp(8192, v) + (r % 8192)
   BY ModClosed_13
 <1>3. r % 8192 \in 0..8191
-  BY Z3
+  BY Z3T(60)
 <1>4. (AlignUp(8192, v) + (r % 8192)) % 8192 = r % 8192
-  BY <1>1, <1>3, Z3T(30)
+  BY <1>1, <1>3, Z3T(60)
 <1> QED
-  BY <1>1, <1>2, <1>3, <1>4, Z3T(30) DEF IsAlignModulo
+  BY <1>1, <1>2, <1>3, <1>4, Z3T(60) DEF IsAlignModulo
 THEOREM ModLeast_13 == \A v \in Nat, r \in Nat, x \in Nat :
     (x >= AlignUp(8192, v) /\ x % 8192 = r % 8192) => x >= AlignModulo(8192, r, v)
-  BY UpNat_13, ModClosed_13, Z3T(30)
+  BY UpNat_13, ModClosed_13, Z3T(60)
 
 THEOREM Up_14 == \A v \in Nat : IsAlignUp(16384, v, AlignUp(16384, v))
-  BY Z3 DEF IsAlignUp, AlignUp
+  BY Z3T(60) DEF IsAlignUp, AlignUp
 THEOREM UpLeast_14 == \A v \in Nat, x \in Nat : (x % 16384 = 0 /\ x >= v) => x >= AlignUp(16384, v)
-  BY Z3 DEF AlignUp
+  BY Z3T(60) DEF AlignUp
 THEOREM Down_14 == \A v \in Nat : IsAlignDown(16384, v, AlignDown(16384, v))
-  BY Z3 DEF IsAlignDown, AlignDown
+  BY Z3T(60) DEF IsAlignDown, AlignDown
 THEOREM DownGreatest_14 == \A v \in Nat, x \in Nat : (x % 16384 = 0 /\ x <= v) => x <= AlignDown(16384, v)
-  BY Z3 DEF AlignDown
+  BY Z3T(60) DEF AlignDown
 LEMMA UpNat_14 == \A v \in Nat : AlignUp(16384, v) \in Nat /\ AlignUp(16384, v) % 16384 = 0
-  BY Z3 DEF AlignUp
+  BY Z3T(60) DEF AlignUp
 LEMMA ModClosed_14 == \A v \in Nat, r \in Nat : AlignModulo(16384, r, v) = AlignUp(16384, v) + (r % 16384)
-  BY UpNat_14, Z3T(30) DEF AlignModulo
+  BY UpNat_14, Z3T(60) DEF AlignModulo
 THEOREM Mod_14 == \A v \in Nat, r \in Nat : IsAlignModulo(16384, r, v, AlignModulo(16384, r, v))
 <1> TAKE v \in Nat, r \in Nat
 <1>1. AlignUp(16384, v) \in Nat /\ AlignUp(16384, v) % 16384 = 0
@@ -428,27 +428,27 @@ THEOREM Mod_14 == \A v \in Nat, r \in Nat : IsAlignModulo(16384, r, v, AlignModu
 <1>2. AlignModulo(16384, r, v) = AlignUp(16384, v) + (r % 16384)
   BY ModClosed_14
 <1>3. r % 16384 \in 0..16383
-  BY Z3
+  BY Z3T(60)
 <1>4. (AlignUp(16384, v) + (r % 16384)) % 16384 = r % 16384
-  BY <1>1, <1>3, Z3T(30)
+  BY <1>1, <1>3, Z3T(60)
 <1> QED
-  BY <1>1, <1>2, <1>3, <1>4, Z3T(30) DEF IsAlignModulo
+  BY <1>1, <1>2, <1>3, <1>4, Z3T(60) DEF IsAlignModulo
 THEOREM ModLeast_14 == \A v \in Nat, r \in Nat, x \in Nat :
     (x >= AlignUp(16384, v) /\ x % 16384 = r % 16384) => x >= AlignModulo(16384, r, v)
-  BY UpNat_14, ModClosed_14, Z3T(30)
+  BY UpNat_14, ModClosed_14, Z3T(60)
 
 THEOREM Up_15 == \A v \in Nat : IsAlignUp(32768, v, AlignUp(32768, v))
-  BY Z3 DEF IsAlignUp, AlignUp
+  BY Z3T(60) DEF IsAlignUp, AlignUp
 THEOREM UpLeast_15 == \A v \in Nat, x \in Nat : (x % 32768 = 0 /\ x >= v) => x >= AlignUp(32768, v)
-  BY Z3 DEF AlignUp
+  BY Z3T(60) DEF AlignUp
 THEOREM Down_15 == \A v \in Nat : IsAlignDown(32768, v, AlignDown(32768, v))
-  BY Z3 DEF IsAlignDown, AlignDown
+  BY Z3T(60) DEF IsAlignDown, AlignDown
 THEOREM DownGreatest_15 == \A v \in Nat, x \in Nat : (x % 32768 = 0 /\ x <= v) => x <= AlignDown(32768, v)
-  BY Z3 DEF AlignDown
+  BY Z3T(60) DEF AlignDown
 LEMMA UpNat_15 == \A v \in Nat : AlignUp(32768, v) \in Nat /\ AlignUp(32768, v) % 32768 = 0
-  BY Z3 DEF AlignUp
+  BY Z3T(60) DEF AlignUp
 LEMMA ModClosed_15 == \A v \in Nat, r \in Nat : AlignModulo(32768, r, v) = AlignUp(32768, v) + (r % 32768)
-  BY UpNat_15, Z3T(30) DEF AlignModulo
+  BY UpNat_15, Z3T(60) DEF AlignModulo
 THEOREM Mod_15 == \A v \in Nat, r \in Nat : IsAlignModulo(32768, r, v, AlignModulo(32768, r, v))
 <1> TAKE v \in Nat, r \in Nat
 <1>1. AlignUp(32768, v) \in Nat /\ AlignUp(32768, v) % 32768 = 0
@@ -456,27 +456,27 @@ THEOREM Mod_15 == \A v \in Nat, r \in Nat : IsAlignModulo(32768, r, v, AlignModu
 <1>2. AlignModulo(32768, r, v) = AlignUp(32768, v) + (r % 32768)
   BY ModClosed_15
 <1>3. r % 32768 \in 0..32767
-  BY Z3
+  BY Z3T(60)
 <1>4. (AlignUp(32768, v) + (r % 32768)) % 32768 = r % 32768
-  BY <1>1, <1>3, Z3T(30)
+  BY <1>1, <1>3, Z3T(60)
 <1> QED
-  BY <1>1, <1>2, <1>3, <1>4, Z3T(30) DEF IsAlignModulo
+  BY <1>1, <1>2, <1>3, <1>4, Z3T(60) DEF IsAlignModulo
 THEOREM ModLeast_15 == \A v \in Nat, r \in Nat, x \in Nat :
     (x >= AlignUp(32768, v) /\ x % 32768 = r % 32768) => x >= AlignModulo(32768, r, v)
-  BY UpNat_15, ModClosed_15, Z3T(30)
+  BY UpNat_15, ModClosed_15, Z3T(60)
 
 THEOREM Up_16 == \A v \in Nat : IsAlignUp(65536, v, AlignUp(65536, v))
-  BY Z3 DEF IsAlignUp, AlignUp
+  BY Z3T(60) DEF IsAlignUp, AlignUp
 THEOREM UpLeast_16 == \A v \in Nat, x \in Nat : (x % 65536 = 0 /\ x >= v) => x >= AlignUp(65536, v)
-  BY Z3 DEF AlignUp
+  BY Z3T(60) DEF AlignUp
 THEOREM Down_16 == \A v \in Nat : IsAlignDown(65536, v, AlignDown(65536, v))
-  BY Z3 DEF IsAlignDown, AlignDown
+  BY Z3T(60) DEF IsAlignDown, AlignDown
 THEOREM DownGreatest_16 == \A v \in Nat, x \in Nat : (x % 65536 = 0 /\ x <= v) => x <= AlignDown(65536, v)
-  BY Z3 DEF AlignDown
+  BY Z3T(60) DEF AlignDown
 LEMMA UpNat_16 == \A v \in Nat : AlignUp(65536, v) \in Nat /\ AlignUp(65536, v) % 65536 = 0
-  BY Z3 DEF AlignUp
+  BY Z3T(60) DEF AlignUp
 LEMMA ModClosed_16 == \A v \in Nat, r \in Nat : AlignModulo(65536, r, v) = AlignUp(65536, v) + (r % 65536)
-  BY UpNat_16, Z3T(30) DEF AlignModulo
+  BY UpNat_16, Z3T(60) DEF AlignModulo
 THEOREM Mod_16 == \A v \in Nat, r \in Nat : IsAlignModulo(65536, r, v, AlignModulo(65536, r, v))
 <1> TAKE v \in Nat, r \in Nat
 <1>1. AlignUp(65536, v) \in Nat /\ AlignUp(65536, v) % 65536 = 0
@@ -484,13 +484,13 @@ THEOREM Mod_16 == \A v \in Nat, r \in Nat : IsAlignModulo(65536, r, v, AlignModu
 <1>2. AlignModulo(65536, r, v) = AlignUp(65536, v) + (r % 65536)
   BY ModClosed_16
 <1>3. r % 65536 \in 0..65535
-  BY Z3
+  BY Z3T(60)
 <1>4. (AlignUp(65536, v) + (r % 65536)) % 65536 = r % 65536
-  BY <1>1, <1>3, Z3T(30)
+  BY <1>1, <1>3, Z3T(60)
 <1> QED
-  BY <1>1, <1>2, <1>3, <1>4, Z3T(30) DEF IsAlignModulo
+  BY <1>1, <1>2, <1>3, <1>4, Z3T(60) DEF IsAlignModulo
 THEOREM ModLeast_16 == \A v \in Nat, r \in Nat, x \in Nat :
     (x >= AlignUp(65536, v) /\ x % 65536 = r % 65536) => x >= AlignModulo(65536, r, v)
-  BY UpNat_16, ModClosed_16, Z3T(30)
+  BY UpNat_16, ModClosed_16, Z3T(60)
 
 =============================================================================
